@@ -43,3 +43,14 @@ package queries
 //@ func (t TypeBoolean) Operators() (r []string)
 //@   property C38
 //@   ensures len(r) == 1 && r[0] == "$match"
+
+// ---- field.go: a validated date filter value parses (C38) --------------------------------------------------------
+// The storage handlers parse the same string again (common.NormalizeDateFilterValue) and hand a parse error back
+// unwrapped, which the API answers with 500: the validator has to accept exactly the strings that parse.
+//@ declare parsesTime(s string) bool
+//@ assumed func time.ParseTime(v string) (t time.Time, err error)
+//@   ensures (err == nil) == parsesTime(v)
+
+//@ func (t TypeDate) ValidateValue(operator string, value any) (err error)
+//@   property C38
+//@   ensures err == nil && is(value, string) ==> parsesTime(value.(string))
